@@ -164,6 +164,8 @@ func typeCheck(fset *token.FileSet, imp *mapImporter, path, filename, src string
 type generated struct {
 	connectName string
 	connectSrc  string
+	twinName    string
+	twinSrc     string
 	pbFiles     map[string]string
 }
 
@@ -173,8 +175,12 @@ func generate(f FileSpec) (*generated, []*descriptorpb.FileDescriptorProto, erro
 		return nil, nil, nil // invalid descriptor: outside the domain
 	}
 	all := append(WKTFiles(), files...)
+	toGenerate := []string{f.protoName()}
+	if f.Twin {
+		toGenerate = append(toGenerate, f.TwinSpec().protoName())
+	}
 	req := &pluginpb.CodeGeneratorRequest{
-		FileToGenerate:  []string{f.protoName()},
+		FileToGenerate:  toGenerate,
 		ProtoFile:       all,
 		CompilerVersion: &pluginpb.Version{Major: proto.Int32(3), Minor: proto.Int32(21), Patch: proto.Int32(0)},
 	}
@@ -199,12 +205,15 @@ func generate(f FileSpec) (*generated, []*descriptorpb.FileDescriptorProto, erro
 		}
 		return g, files, nil
 	}
-	if len(resp.File) != 1 {
-		return nil, files, fmt.Errorf("generator emitted %d files for one input with services", len(resp.File))
+	if len(resp.File) != len(toGenerate) {
+		return nil, files, fmt.Errorf("generator emitted %d files for %d inputs with services", len(resp.File), len(toGenerate))
 	}
 	g.connectName, g.connectSrc = resp.File[0].GetName(), resp.File[0].GetContent()
+	if f.Twin {
+		g.twinName, g.twinSrc = resp.File[1].GetName(), resp.File[1].GetContent()
+	}
 	// companion .pb.go files
-	toGen := []string{f.protoName()}
+	toGen := append([]string{}, toGenerate...)
 	if f.Imported {
 		toGen = append(toGen, f.depProto())
 	}
@@ -432,6 +441,24 @@ func check(tt *testing.T, f FileSpec) (pbt.Info, error) {
 	if len(f.Services) == 0 {
 		return info, nil
 	}
+	if err := verifyOne(f, g.connectName, g.connectSrc, g.pbFiles); err != nil {
+		return info, fmt.Errorf("%s: %v", where, err)
+	}
+	if f.Twin {
+		info.Label("twin-file-same-service-names")
+		if err := verifyOne(f.TwinSpec(), g.twinName, g.twinSrc, g.pbFiles); err != nil {
+			return info, fmt.Errorf("%s: second file of the same plugin invocation (same service names, package %q): %v", where, f.TwinSpec().Package, err)
+		}
+	}
+	return info, nil
+}
+
+// verifyOne checks one generated connect file against its spec.
+func verifyOne(f FileSpec, connectName, connectSrc string, pbFiles map[string]string) error {
+	g := &generated{connectName: connectName, connectSrc: connectSrc, pbFiles: pbFiles}
+	where := "generated file " + connectName
+	var info pbt.Info
+	_ = info
 	// expected location and package of the generated file
 	wantPkg := f.baseGoPkgName() + "connect"
 	wantName := f.dir() + "/" + wantPkg + "/svc.connect.go"
@@ -439,7 +466,7 @@ func check(tt *testing.T, f FileSpec) (pbt.Info, error) {
 		wantName = strings.TrimPrefix(wantName, moduleRoot+"/")
 	}
 	if g.connectName != wantName {
-		return info, fmt.Errorf("%s: generated file is named %q, want %q", where, g.connectName, wantName)
+		return fmt.Errorf("%s: generated file is named %q, want %q", where, g.connectName, wantName)
 	}
 	fset := token.NewFileSet()
 	imp := newImporter(fset)
@@ -449,7 +476,7 @@ func check(tt *testing.T, f FileSpec) (pbt.Info, error) {
 			name = strings.TrimPrefix(name, moduleRoot+"/")
 		}
 		if _, _, err := typeCheck(fset, imp, f.depDir(), "dep.pb.go", g.pbFiles[name]); err != nil {
-			return info, fmt.Errorf("HARNESS: dep.pb.go %v (files %v)", err, keys(g.pbFiles))
+			return fmt.Errorf("HARNESS: dep.pb.go %v (files %v)", err, keys(g.pbFiles))
 		}
 	}
 	pbName := f.dir() + "/svc.pb.go"
@@ -457,27 +484,27 @@ func check(tt *testing.T, f FileSpec) (pbt.Info, error) {
 		pbName = strings.TrimPrefix(pbName, moduleRoot+"/")
 	}
 	if _, _, err := typeCheck(fset, imp, f.goImportPath(), "svc.pb.go", g.pbFiles[pbName]); err != nil {
-		return info, fmt.Errorf("HARNESS: svc.pb.go %v (files %v)", err, keys(g.pbFiles))
+		return fmt.Errorf("HARNESS: svc.pb.go %v (files %v)", err, keys(g.pbFiles))
 	}
 	file, pkg, err := typeCheck(fset, imp, f.goImportPath()+"/"+wantPkg, "svc.connect.go", g.connectSrc)
 	if err != nil {
-		return info, fmt.Errorf("%s: generated code %v\n%s", where, err, numbered(g.connectSrc, 60))
+		return fmt.Errorf("%s: generated code %v\n%s", where, err, numbered(g.connectSrc, 60))
 	}
 	if pkg.Name() != wantPkg {
-		return info, fmt.Errorf("%s: generated package is %q, want %q", where, pkg.Name(), wantPkg)
+		return fmt.Errorf("%s: generated package is %q, want %q", where, pkg.Name(), wantPkg)
 	}
 	if err := staticRouting(f, file); err != nil {
-		return info, fmt.Errorf("%s: %v", where, err)
+		return fmt.Errorf("%s: %v", where, err)
 	}
 	// service name constants
 	for _, s := range f.Services {
 		obj := pkg.Scope().Lookup(s.Name + "Name")
 		c, ok := obj.(*types.Const)
 		if !ok || strings.Trim(c.Val().ExactString(), `"`) != f.fqService(s) {
-			return info, fmt.Errorf("%s: constant %sName is %v, want %q", where, s.Name, obj, f.fqService(s))
+			return fmt.Errorf("%s: constant %sName is %v, want %q", where, s.Name, obj, f.fqService(s))
 		}
 	}
-	return info, nil
+	return nil
 }
 
 func keys(m map[string]string) []string {
@@ -551,6 +578,7 @@ func gen(t *rapid.T) FileSpec {
 	f.Nested = rapid.Bool().Draw(t, "nested")
 	f.Imported = rapid.Bool().Draw(t, "imported")
 	f.WKT = rapid.Bool().Draw(t, "wkt")
+	f.Twin = rapid.IntRange(0, 3).Draw(t, "twin") == 0
 	ns := rapid.SampledFrom([]int{0, 1, 1, 1, 2, 3}).Draw(t, "nservices")
 	comments := []string{"", "", " A plain comment.\n", " Multi-line\n comment with */ and ünïcode.\n", " Deprecated: not really.\n"}
 	for i := 0; i < ns; i++ {
@@ -576,7 +604,7 @@ func gen(t *rapid.T) FileSpec {
 
 var spec = pbt.Spec[FileSpec]{
 	Prop: "C17", Name: "descriptors", Gen: gen, Check: check,
-	Rule: "FileDescriptorProtos built by construction and validated with protodesc: package absent / single / dotted; 0..3 services × 1..5 methods × 4 streaming kinds; service and method names from a grammar incl. snake_case, lower-case initials, digits and every name whose lower-camel form is a Go keyword or predeclared identifier; deprecated file/service/method options; leading comments (multi-line, '*/', non-ASCII); messages local, nested, imported from a file with another go_package, well-known types; go_package with/without ';name'; paths=import / source_relative / module=. The plugin binary is built from /repo's tree and fed CodeGeneratorRequests. Oracle: exits 0 without error; no output for files without services; two runs byte-identical; expected file name and package; output parses and type-checks (go/types against export data of /repo's connect package and the protoc-gen-go output); per method, handler registration, Spec procedure and client constructor use the canonical '/<fully-qualified service>/<method>' with the constructor and Call* matching the streaming kind; mount prefix '/<fq service>/'; <Service>Name constants. Go-name collisions that protoc permits are discarded (labelled). Non-trivial = ≥2 methods of different kinds, or a keyword-like/snake_case name, or no package, or an imported message type",
+	Rule: "FileDescriptorProtos built by construction and validated with protodesc: package absent / single / dotted; 0..3 services × 1..5 methods × 4 streaming kinds; service and method names from a grammar incl. snake_case, lower-case initials, digits and every name whose lower-camel form is a Go keyword or predeclared identifier; deprecated file/service/method options; leading comments (multi-line, '*/', non-ASCII); messages local, nested, imported from a file with another go_package, well-known types; go_package with/without ';name'; paths=import / source_relative / module=; optionally a second file in the same plugin invocation that declares services with the same names in another package. The plugin binary is built from /repo's tree and fed CodeGeneratorRequests. Oracle: exits 0 without error; no output for files without services; two runs byte-identical; expected file name and package; output parses and type-checks (go/types against export data of /repo's connect package and the protoc-gen-go output); per method, handler registration, Spec procedure and client constructor use the canonical '/<fully-qualified service>/<method>' with the constructor and Call* matching the streaming kind; mount prefix '/<fq service>/'; <Service>Name constants. Go-name collisions that protoc permits are discarded (labelled). Non-trivial = ≥2 methods of different kinds, or a keyword-like/snake_case name, or no package, or an imported message type",
 }
 
 func TestDescriptors(t *testing.T) { pbt.Run(t, spec) }
